@@ -108,13 +108,24 @@ class PageHinkleyModel:
 
 
 # ------------------------------------------------------------------- densities
+MAX_COUNT_VECTORS = 64  # admissible count vectors per window and component (see admissible_counts)
+
+
 def admissible_counts(values, lo, hi, bins):
     """Set of admissible histogram count vectors of ``values`` on ``bins`` equal
     bins over [lo, hi] (first element of the returned list = straight numpy
-    convention: half-open bins, last one closed)."""
+    convention: half-open bins, last one closed).
+
+    Values within EDGE_TOL of the same interior edge are interchangeable, so the set
+    is enumerated per edge (how many of its undecidable values go up), not per value.
+    More than MAX_COUNT_VECTORS vectors (a window with many values on undecidable
+    edges, e.g. lattice data whose projections are not exact) is outside the
+    specification: nothing definite can be said about the score."""
     width = hi - lo
     edges = [lo + width * j / bins for j in range(1, bins)]
-    options = []
+    base = [0] * bins
+    amb = [0] * (bins - 1)  # undecidable values per interior edge
+    up = [0] * (bins - 1)  # of those, how many the straight convention puts in the upper bin
     for v in values:
         b = 0
         alt = None
@@ -122,18 +133,26 @@ def admissible_counts(values, lo, hi, bins):
             if v >= e:
                 b = j + 1
             if abs(v - e) <= EDGE_TOL * width:
-                alt = (j, j + 1)
-        if alt is None:
-            options.append((b,))
+                alt = j
+        if alt is None or b not in (alt, alt + 1):
+            base[b] += 1
         else:
-            other = alt[0] if b == alt[1] else alt[1]
-            options.append((b, other))
+            amb[alt] += 1
+            if b == alt + 1:
+                up[alt] += 1
+    total = 1
+    for a in amb:
+        total *= a + 1
+        if total > MAX_COUNT_VECTORS:
+            raise Undefined("too many values on numerically undecidable bin edges")
+    options = [[up[j]] + [k for k in range(amb[j] + 1) if k != up[j]] for j in range(bins - 1)]
     out = []
     seen = set()
     for choice in itertools.product(*options):
-        c = [0] * bins
-        for b in choice:
-            c[b] += 1
+        c = list(base)
+        for j, k in enumerate(choice):
+            c[j + 1] += k
+            c[j] += amb[j] - k
         c = tuple(c)
         if c not in seen:
             seen.add(c)
@@ -347,7 +366,7 @@ class PCACDModel:
             if self.metric == "intersection":
                 if not (hi - lo > SPREAD_TOL * max(self.mag, abs(lo), abs(hi))):
                     raise Undefined("retained component without spread")
-                self.ref_density.append(admissible_counts(col_r, lo, hi, self.bins))
+                self.ref_density.append(None)  # tolerant count vectors: computed when first needed
             else:
                 self.ref_density.append(kde_density(col_r, self.mag))
         self.ex = [self._exact_setup(i) if self.metric == "intersection" else None for i in range(k)]
@@ -517,6 +536,9 @@ class PCACDModel:
                 exact_comps += 1
                 edge_ties += ties + ex["ref_ties"]
             elif self.metric == "intersection":
+                if self.ref_density[i] is None:
+                    col_r = [row[i] for row in self.rproj]
+                    self.ref_density[i] = admissible_counts(col_r, self.lo[i], self.hi[i], self.bins)
                 tc = admissible_counts(col_t, self.lo[i], self.hi[i], self.bins)
                 per.append([float(s) for s in intersection_scores(self.ref_density[i], tc, self.w)])
             else:
